@@ -15,6 +15,16 @@ pub enum ItOp {
     NextBack,
     Len,
     SizeHint,
+    /// `nth(k)`
+    Nth(usize),
+    /// `nth_back(k)` (where the iterator is double ended; else `nth(k)`)
+    NthBack(usize),
+    /// consume the rest by internal iteration (`for_each`); ends the program
+    RestForEach,
+    /// `count()`; ends the program
+    RestCount,
+    /// `last()`; ends the program
+    RestLast,
 }
 
 #[derive(Clone, Copy, Debug, PartialEq, Eq, Serialize, Deserialize)]
@@ -169,7 +179,16 @@ pub enum Step {
     Get { k: u32, b: bool },
     GetMut { k: u32, b: bool, pl: Option<u32> },
     Retain { rule: Rule, mutable: bool },
-    IterMut { prog: Vec<ItOp>, via: Via, end: GEnd, rule: Rule },
+    /// late: also write a priority through a reference the iterator yielded AFTER the iterator
+    /// itself is gone (only possible when a terminal operation consumed it)
+    IterMut {
+        prog: Vec<ItOp>,
+        via: Via,
+        end: GEnd,
+        rule: Rule,
+        #[serde(default)]
+        late: bool,
+    },
     Drain { prog: Vec<ItOp>, end: GEnd },
     Iter { which: ItKind, prog: Vec<ItOp> },
     Adapt { which: ItKind, ad: Adaptor },
@@ -184,6 +203,8 @@ pub enum Step {
     FromIter { extra: Vec<P3>, hint: Hint },
     Convert,
     CloneSwap,
+    /// an existing queue built from `dst` receives `clone_from(&queue)` and replaces it
+    CloneFrom { dst: Vec<P3> },
     Serde { switch: bool },
     EqSelf,
     Sorted { which: SortedKind },
@@ -223,6 +244,7 @@ impl Step {
             Step::FromIter { .. } => Fam::FromIter,
             Step::Convert => Fam::Convert,
             Step::CloneSwap => Fam::CloneSwap,
+            Step::CloneFrom { .. } => Fam::CloneFrom,
             Step::Serde { .. } => Fam::Serde,
             Step::EqSelf => Fam::EqSelf,
             Step::Sorted { .. } => Fam::Sorted,
@@ -269,8 +291,9 @@ pub enum Fam {
     Sorted,
     SortedEp,
     IntoVec,
+    CloneFrom,
 }
-pub const N_FAM: usize = 34;
+pub const N_FAM: usize = 35;
 pub const ALL_FAM: [Fam; N_FAM] = [
     Fam::Push,
     Fam::PushInc,
@@ -306,6 +329,7 @@ pub const ALL_FAM: [Fam; N_FAM] = [
     Fam::Sorted,
     Fam::SortedEp,
     Fam::IntoVec,
+    Fam::CloneFrom,
 ];
 
 impl Fam {
@@ -345,6 +369,7 @@ impl Fam {
             Fam::Sorted => "sorted_vec",
             Fam::SortedEp => "sorted_iter_episode",
             Fam::IntoVec => "into_vec",
+            Fam::CloneFrom => "clone_from",
         }
     }
 }
